@@ -33,6 +33,7 @@ type Gen struct {
 	// NoDupReinforce: never list one id twice in a VReinforce call (the intermediate count
 	// is a state the model does not record; matters only for crash images)
 	NoDupReinforce bool
+	NoChurn        bool        // no multi-call edge churn steps
 	Combos         [][2]string // allowed metric/precision pairs (nil = all valid)
 }
 
@@ -230,6 +231,30 @@ func (g *Gen) Batch(m *Model, index string, n int) []types.BatchObject {
 }
 
 // Step executes one random data operation (no restart / admin op).
+// Churn links and soft-unlinks ONE (source, target, relation) several times in a row (the
+// same weight or a changing one), ending linked or unlinked: version lists and reverse
+// entries with several closed generations of the same edge.
+func (g *Gen) Churn(x *Exec, ix string) {
+	r := g.R
+	src, tgt, rel := vkit.Pick(r, g.IDs[:5]), vkit.Pick(r, g.IDs[:5]), vkit.Pick(r, g.Rels)
+	inv := ""
+	if r.Chance(0.3) {
+		inv = "inv_" + g.Rels[0]
+	}
+	w := float32(r.Intn(3))
+	n := r.Range(3, 6)
+	for i := 0; i < n; i++ {
+		if i%2 == 0 {
+			if r.Chance(0.3) {
+				w = float32(r.Intn(3))
+			}
+			x.VLink(ix, src, tgt, rel, inv, w, nil)
+		} else {
+			x.VUnlink(ix, src, tgt, rel, inv, false)
+		}
+	}
+}
+
 func (g *Gen) Step(x *Exec) {
 	m := x.M
 	r := g.R
@@ -292,13 +317,19 @@ func (g *Gen) Step(x *Exec) {
 		if id, ok := g.pickLive(m, ix); ok {
 			x.VEvolve(ix, id, g.Vec(), g.Meta(), vkit.Pick(r, g.Words))
 		}
-	case p < 86:
+	case p < 83:
 		src, tgt := vkit.Pick(r, g.IDs[:5]), vkit.Pick(r, g.IDs[:5])
 		inv := ""
 		if r.Chance(0.3) {
 			inv = "inv_" + g.Rels[0]
 		}
 		x.VLink(ix, src, tgt, vkit.Pick(r, g.Rels), inv, float32(r.Intn(3)), g.Props())
+	case p < 86:
+		if g.NoChurn { // one call per step (C02 records one model state per step)
+			x.VUnlink(ix, vkit.Pick(r, g.IDs[:5]), vkit.Pick(r, g.IDs[:5]), vkit.Pick(r, g.Rels), "", false)
+			return
+		}
+		g.Churn(x, ix)
 	case p < 94:
 		src, tgt := vkit.Pick(r, g.IDs[:5]), vkit.Pick(r, g.IDs[:5])
 		inv := ""
